@@ -19,17 +19,22 @@ use scpi::tree::prelude::*;
 
 // ------------------------------------------------------------------ Node::run
 pub static mut RT_RESULT: u8 = 0;
+pub static mut RT_WRITES: bool = false;
+/// Contract stub of `Node::run_tokens`: any result; may have produced response bytes.
 pub fn stub_run_tokens<'a, D: Device, FMT: Formatter>(
     _this: &Node<'a, D>,
     _device: &mut D,
     _context: &mut Context,
     _tokens: &mut Peekable<Tokenizer>,
-    _response: &mut FMT,
+    response: &mut FMT,
 ) -> Result<()>
 where
     'a: 'a,
 {
     unsafe {
+        if RT_WRITES {
+            let _ = response.push_byte(b'1');
+        }
         if RT_RESULT == 0 {
             Ok(())
         } else {
@@ -42,17 +47,27 @@ struct Never;
 impl Command<KD> for Never {}
 const T1: Node<KD> = Branch { name: b"", default: false, sub: &[Leaf { name: b"A", default: false, handler: &Never }] };
 
+/// `run` returns exactly what `run_tokens` returned and reports it to the error hook exactly
+/// once iff it is an error — also when the response buffer is full or non-empty (run itself
+/// must not write anything).
 #[kani::proof]
 #[kani::unwind(4)]
 #[kani::stub(crate::tree::Node::run_tokens, stub_run_tokens)]
 pub fn run_reports_exactly_once() {
     let k: u8 = kani::any();
     kani::assume(k <= 4);
-    unsafe { RT_RESULT = k };
+    let writes: bool = kani::any();
+    let cap: usize = kani::any();
+    kani::assume(cap <= 2);
+    unsafe {
+        RT_RESULT = k;
+        RT_WRITES = writes;
+    }
     let mut d = KD::new();
     let mut ctx = Context::default();
-    let mut out = alloc::vec::Vec::<u8>::new();
+    let mut out = ArrFmt::new(cap);
     let r = T1.run(b"A", &mut d, &mut ctx, &mut out);
+    kani::cover!(k == 0 && writes && cap == 1);
     if k == 0 {
         assert!(r.is_ok(), "C05/Node::run/returns-ok-of-run_tokens");
         assert!(d.hook_calls == 0, "C05/Node::run/error-hook-never-invoked-on-success");
@@ -62,6 +77,7 @@ pub fn run_reports_exactly_once() {
         assert!(d.hook_calls == 1, "C05/Node::run/error-hook-invoked-exactly-once");
         assert!(d.last == Some(e), "C05/Node::run/error-hook-receives-exactly-that-error");
     }
+    assert!(out.len <= 1 && (out.len == 1) == (writes && cap >= 1), "C05/Node::run/writes-nothing-itself");
 }
 
 // ------------------------------------------------------------------ Node::run_tokens
@@ -411,6 +427,46 @@ run_tokens_harness!(run_tokens_k3, 3, 5);
 run_tokens_harness!(run_tokens_k4, 4, 6);
 run_tokens_harness!(run_tokens_k5, 5, 7);
 run_tokens_harness!(run_tokens_k6, 6, 8);
+
+/// C06: ANY data element kind (all seven) or a data separator left over by the handler makes
+/// the message fail with -108; any other non-separator token with -102.  One case after the
+/// other so that the token kind is a constant on each path.
+#[kani::proof]
+#[kani::unwind(6)]
+#[kani::stub(<crate::parser::tokenizer::Tokenizer as core::iter::Iterator>::next, stub_next)]
+#[kani::stub(crate::tree::Node::exec, stub_exec)]
+pub fn leftover_every_data_kind() {
+    let p: [u8; 2] = kani::any();
+    macro_rules! case {
+        ($tok:expr, $code:expr) => {{
+            set_script(&[Some(Ok(Token::ProgramMnemonic(b"A"))), Some(Ok($tok)), Some(Ok(Token::ProgramMessageUnitSeparator)), Some(Ok(Token::ProgramMnemonic(b"A")))]);
+            unsafe {
+                EXEC_CALLS = 0;
+                EXEC_N = [1; UMAX];
+                EXEC_R = [0; UMAX];
+                EXEC_Q = [false; UMAX];
+                EXEC_L = [0; UMAX];
+            }
+            let mut d = KD::new();
+            let mut ctx = Context::default();
+            let mut out = ArrFmt::new(16);
+            let mut toks = Tokenizer::new(b"").peekable();
+            let res = T3.run_tokens(&mut d, &mut ctx, &mut toks, &mut out);
+            assert!(is_err_code(&res, $code), "C06/Node::run_tokens/unconsumed-data-element-of-any-kind-is-108-before-the-next-unit-starts");
+            assert!(unsafe { EXEC_CALLS } == 1, "C06/Node::run_tokens/the-next-unit-is-not-started");
+        }};
+    }
+    case!(Token::CharacterProgramData(&p), -108);
+    case!(Token::DecimalNumericProgramData(&p), -108);
+    case!(Token::DecimalNumericSuffixProgramData(&p, b"V"), -108);
+    case!(Token::NonDecimalNumericProgramData(kani::any()), -108);
+    case!(Token::StringProgramData(&p), -108);
+    case!(Token::ArbitraryBlockData(&p), -108);
+    case!(Token::ExpressionProgramData(&p), -108);
+    case!(Token::ProgramDataSeparator, -108);
+    case!(Token::HeaderQuerySuffix, -102);
+    case!(Token::ProgramMnemonic(&p), -102);
+}
 
 /// Same contract with a fixed-capacity buffer (C11): -225 exactly where the reference says the
 /// next write does not fit, never a panic, never beyond CAP.
